@@ -1,0 +1,29 @@
+//go:build verif
+
+package search
+
+import (
+	. "github.com/paulsonkoly/chess-3/chess"
+	"github.com/paulsonkoly/chess-3/move"
+)
+
+// VerifPV exposes the principal variation buffer (build tag verif).
+type VerifPV struct{ p *pv }
+
+// NewVerifPV creates a fresh buffer.
+func NewVerifPV() VerifPV { return VerifPV{newPV()} }
+
+// Insert is pv.insert.
+func (v VerifPV) Insert(ply int, m move.Move) { v.p.insert(Depth(ply), m) }
+
+// SetNull is pv.setNull.
+func (v VerifPV) SetNull(ply int) { v.p.setNull(Depth(ply)) }
+
+// Active is pv.active.
+func (v VerifPV) Active() []move.Move { return v.p.active() }
+
+// VerifBufIx is bufIx.
+func VerifBufIx(ply int) int { return bufIx(Depth(ply)) }
+
+// VerifPVLen is the length of the flat buffer.
+func VerifPVLen() int { return len(newPV().moves) }
